@@ -33,7 +33,11 @@ SPECIAL = (
 )
 
 
-TEMPLATES = ("{}", "{0}", "{a}", "{name} x", "%s", "%d", "{0!r}", "{{}}", "${x}", "\\n", "e\u0301", "A\u030a")
+TEMPLATES = ("{}", "{0}", "{a}", "{name} x", "%s", "%d", "{0!r}", "{{}}", "${x}", "\\n", "e\u0301", "A\u030a",
+             # character SEQUENCES that text-cleaning code treats as one unit: variation selectors, joiners,
+             # surrogate pairs written as two code points, CR LF, a flag
+             "\u00a9\ufe0f", "\u2122\ufe0e x", "\u2764\ufe0f", "a\u200db", "\U0001F468\u200d\U0001F469", "\ud83d\ude00", "x\ud83d\ude00y",
+             "\r\n", "\U0001F1E9\U0001F1EA", "\ufeffa", "fi\ufb01")
 
 
 BEYOND_FLOAT = (2 ** 1024, 2 ** 1024 + 1, 2 ** 2000, 10 ** 400)
@@ -71,7 +75,7 @@ def text(bits, max_size, exclude="", hot=""):
     BMP, 2/16 astral."""
     sel = bits.below(8)
     n = 0 if sel == 0 else max_size if sel == 1 else bits.below(max_size + 1)
-    if bits.below(32) == 0:
+    if bits.below(20) == 0:
         # strings that mean something to formatting / templating code
         t = bits.pick(TEMPLATES)[:max_size]
         return "".join("a" if ch in exclude else ch for ch in t)
